@@ -232,10 +232,16 @@ c.requires("implies(self.proxy is not None, self.proxy.scheme is None or isinsta
 c.requires("is_int(self.num_requests)")
 c.requires("self.proxy_config is None or isinstance(self.proxy_config, ProxyConfig)")
 c.requires("release_conn is None or isinstance(release_conn, bool)")
-c.modifies("*")
+c.requires("valid_pool(self)")
+# frame: connection state, the pool's counters, response/traceback bookkeeping and ghost accounting - nothing else that existed
+# before the call is written (the caller's headers mapping, Retry and Timeout objects, the pool's configuration are untouched)
+c.modifies(*[f"*.{f}" for f in ("sock", "timeout", "is_verified", "proxy_is_verified", "_has_connected_to_proxy", "_response_options",
+                                "_tunnel_host", "_tunnel_port", "_tunnel_scheme", "num_requests", "num_connections", "__traceback__",
+                                "_connection", "_fp", "_body", "_container")],
+           *[f"ghost.{g}" for g in ("out", "sends", "waits", "req_timeout", "clock", "sleeps", "last_sleep", "checkouts")])
 c.raises_any = True
 # C01: lease accounting on every exit
-c.ensures("isinstance(result, BaseHTTPResponse)", "returns-response")
+c.ensures("isinstance(result, BaseHTTPResponse) and valid_response(result)", "returns-response")
 c.ensures("implies(self.pool is not None, ghost.out == old(ghost.out) + (0 if result._connection is None else 1))", "lease-balance:response-holds-the-only-outstanding-lease")
 c.exc_ensures("implies(self.pool is not None, ghost.out == old(ghost.out))", "lease-balance:no-lease-outstanding-after-an-exception")
 # C01: failures surface as urllib3 exceptions, never raw socket/ssl/http.client errors
